@@ -20,20 +20,26 @@ func SShapes() *Supergraph {
 			{Name: "tags", Type: "[[String]]"},
 			{Name: "owner", Type: "Owner"},
 			{Name: "near", Type: "[[Cell]]"},
+			// every leaf kind the other models lack
+			{Name: "open", Type: "Boolean"},
+			{Name: "ratio", Type: "Float"},
+			{Name: "meta", Type: "J"},
 		}},
 		{Name: "Owner", Kind: "object", Keys: []Key{{Fields: "id"}}, Fields: []Field{
 			{Name: "id", Type: "ID!", Key: true},
 			{Name: "name", Type: "String"},
+			{Name: "active", Type: "Boolean!"},
 		}},
+		{Name: "J", Kind: "scalar"},
 	}}
 }
 
 func SShapesUniverse(s *Supergraph) *Universe {
-	o1 := Obj{"__typename": "Owner", "id": "o1", "name": "Olga"}
-	o2 := Obj{"__typename": "Owner", "id": "o2", "name": nil}
-	c1 := Obj{"__typename": "Cell", "id": "c1", "secret": "s-one", "tags": []any{[]any{"a", nil}, nil, []any{}}, "owner": o1}
-	c2 := Obj{"__typename": "Cell", "id": "c2", "secret": nil, "tags": nil, "owner": o2}
-	c3 := Obj{"__typename": "Cell", "id": "c3", "secret": "s-three", "tags": []any{[]any{"z"}}, "owner": nil}
+	o1 := Obj{"__typename": "Owner", "id": "o1", "name": "Olga", "active": true}
+	o2 := Obj{"__typename": "Owner", "id": "o2", "name": nil, "active": false}
+	c1 := Obj{"__typename": "Cell", "id": "c1", "secret": "s-one", "tags": []any{[]any{"a", nil}, nil, []any{}}, "owner": o1, "open": true, "ratio": 0.5, "meta": map[string]any{"k": []any{1, "x"}}}
+	c2 := Obj{"__typename": "Cell", "id": "c2", "secret": nil, "tags": nil, "owner": o2, "open": nil, "ratio": nil, "meta": nil}
+	c3 := Obj{"__typename": "Cell", "id": "c3", "secret": "s-three", "tags": []any{[]any{"z"}}, "owner": nil, "open": false, "ratio": 3, "meta": "plain"}
 	c1["near"] = []any{[]any{c2, nil}, []any{c3}}
 	c2["near"] = nil
 	c3["near"] = []any{nil, []any{}, []any{c1}}
